@@ -4,6 +4,7 @@ import (
 	"bytes"
 	"encoding/hex"
 	"fmt"
+	"math"
 	"strings"
 
 	"github.com/koykov/dyntpl"
@@ -83,7 +84,61 @@ func ctxWith(ctx *dyntpl.Ctx, carrier string, s []byte) string {
 		ctx.Set("user", u, userIns)
 		return "user.Name"
 	}
+	if strings.HasPrefix(carrier, "num#") {
+		var i int
+		fmt.Sscanf(carrier, "num#%d", &i)
+		numCarriersEsc[i].set(ctx)
+		return "v"
+	}
 	panic("carrier")
+}
+
+// numeric carriers: values of number kinds reach the escapers too (their text may hold '-', '+',
+// '.', letters: -3, +Inf, NaN, 1e+21); the escaper must treat that text like any other
+type numCarrierEsc struct {
+	name string
+	set  func(ctx *dyntpl.Ctx)
+}
+
+var numCarriersEsc = func() []numCarrierEsc {
+	var out []numCarrierEsc
+	add := func(name string, v any) {
+		out = append(out, numCarrierEsc{name, func(ctx *dyntpl.Ctx) { ctx.SetStatic("v", v) }})
+	}
+	i, i8, i32, i64 := int(-3), int8(-128), int32(-15), int64(math.MinInt64)
+	u, u16 := uint(7), uint16(65535)
+	pinf, ninf, nan, nz, big, frac := math.Inf(1), math.Inf(-1), math.NaN(), math.Copysign(0, -1), 1e21, -2.5
+	f32 := float32(-0.5)
+	add("int", i)
+	add("*int", &i)
+	add("int8", i8)
+	add("*int32", &i32)
+	add("*int64", &i64)
+	add("uint", u)
+	add("*uint16", &u16)
+	add("float64:+Inf", pinf)
+	add("*float64:+Inf", &pinf)
+	add("*float64:-Inf", &ninf)
+	add("*float64:NaN", &nan)
+	add("float64:-0", nz)
+	add("*float64:1e21", &big)
+	add("float64:-2.5", frac)
+	add("*float32:-0.5", &f32)
+	add("bool", true)
+	out = append(out, numCarrierEsc{"counter:-3", func(ctx *dyntpl.Ctx) { ctx.SetCounter("v", -3) }})
+	return out
+}()
+
+// numText: what a bare print shows for numeric carrier i (the text the escaper receives).
+func numText(i int) ([]byte, bool) {
+	ctx := dyntpl.NewCtx()
+	numCarriersEsc[i].set(ctx)
+	key, po := tplKey("{%= v %}", false)
+	if po.ErrClass() != "OK" {
+		return nil, false
+	}
+	o := Render(key, ctx)
+	return o.Out, o.ErrClass() == "OK"
 }
 
 // renderForm renders one escape form on input s.
